@@ -214,10 +214,10 @@ impl PathTpc {
                 for (prev, curr) in link.headings.windows(2).map(|x| (&x[0], &x[1])) {
                     let length = curr.offset - prev.offset;
 
-                    let curvature = (-uc::REV / 2.0
-                        + (curr.heading - prev.heading + uc::REV / 2.0) % uc::REV)
-                        .abs()
-                        / length;
+                    // `%` keeps the sign of the dividend: wrap the shifted heading change into [0, REV)
+                    let heading_change_wrapped =
+                        ((curr.heading - prev.heading + uc::REV / 2.0) % uc::REV + uc::REV) % uc::REV;
+                    let curvature = (-uc::REV / 2.0 + heading_change_wrapped).abs() / length;
                     let one_degree = uc::DEG / (uc::FT * 100.0);
 
                     let res_coeff = if curvature < one_degree {
